@@ -671,6 +671,27 @@ example : ∃ s, runE (init false) [.callStart, .startOk, .sampled, .chans, .pre
     (decide (s.st = .inactive ∧ s.wg = 0 ∧ stoppers s = 0 ∧ s.stopsDone = 1)) = true :=
   exists_of_run _ _ (by decide)
 
+/-! ### A valid Configure clears a remembered configuration error -/
+
+/-- **C10_valid_configure_clears_error**: whatever requests came before (any number of rejected configurations,
+failed Starts, runs), once the source is not running and a Configure has been accepted, the next Start is not
+refused: a failed Start / rejected configuration leaves the source able to be configured and started later. -/
+theorem C10_valid_configure_clears_error (hist : List CfgOp) (s0 : CfgSt)
+    (hidle : (cfgRun s0 hist).1.active = false) :
+    let s := (cfgRun s0 hist).1
+    (cfgStep s .cfgGood).2 = 0 ∧ (cfgStep (cfgStep s .cfgGood).1 .start).2 = 0 ∧
+      (cfgStep (cfgStep s .cfgGood).1 .start).1.active = true := by
+  simp [cfgStep, hidle]
+
+/-- and a rejected configuration does make the next Start fail (the error is remembered, not lost) -/
+theorem C10_rejected_configure_blocks_start (s : CfgSt) :
+    (cfgStep (cfgStep s .cfgBad).1 .start).2 = 1 := by
+  simp only [cfgStep]
+  split <;> simp
+
+example : (cfgRun { cfgErr := false, active := false } [.cfgBad, .start, .cfgGood, .start, .stop]).2 = [1, 1, 0, 0, 0] := by
+  decide
+
 /-! ### Non-vacuity -/
 
 /-- a run with two concurrent Stop callers racing the producer's shut-down satisfies E -/
